@@ -85,6 +85,17 @@ check('C15', 'Hypothesis-generated X programs; hexsim -t output parsed under the
       'When two operands whose order X leaves open both perform calls only the multiset of calls is compared. Free-form remainder of trace lines unchecked.',
       'DESIGN.md 6 C15')
 
+check('C06', 'Hypothesis-generated binaries and inputs; differential between the two real executables (hextb, hexsim) plus agreement with the reference prediction',
+      'For each binary (xcmp from G-X, hexasm from tours) and input, hextb stdout minus its banner, exit status, consumed stdin (file offset) and simout files must equal '
+      'hexsim\'s, and both must equal what xref / the tour construction predicts.',
+      'hextb runs with a fixed Verilator seed (C13 owns seed dependence). Programs never read memory they did not write (xref definedness).',
+      'DESIGN.md 6 C06')
+check('C13', 'seed enumeration on the real hextb + Hypothesis-drawn planted adversarial power-on states in a harness linking hextb.cpp\'s own load()/run()',
+      'Seeds 1..K on shipped programs and random seeds on generated binaries must give the reference output/status/consumption; planted states (pc on a planted SVC, '
+      'store, branch; all-ones; random) must leave registers zero, the image intact and no I/O after the reset window, and give the reference result.',
+      'Power-on space sampled through randReset seeds and planted states; reset window = first five rising edges.',
+      'DESIGN.md 6 C13')
+
 NOT_YET = {}
 
 def main():
